@@ -1450,6 +1450,7 @@ class Interp(object):
   # truthiness
   # ------------------------------------------------------------------
   def truth(self, v, st, ctx, k, node=None):
+    v = self.models.gobj(st, v)
     if isinstance(v, bool):
       return k(st, v)
     if is_symbool(v):
